@@ -2042,3 +2042,76 @@ M('c05-sender-splitlines', 'C05', 'fire:R5.5',
 M('c05-twin-fullline-pattern-with-group', 'C05', 'silent',
   (DR, r'''fullline_pattern = re.compile(br'.*\n')''',
    r'''fullline_pattern = re.compile(br'(.*\r?\n)')''', 1))
+
+# ---------------------------------------------------------------- C06
+CL = 'slimta/smtp/client.py'
+SV = 'slimta/smtp/server.py'
+EXF = 'slimta/smtp/extensions.py'
+HR = 'slimta/relay/http.py'
+WE = 'slimta/edge/wsgi.py'
+M('c06-mail-from-without-colon', 'C06', 'fire:X1',
+  (CL, """b''.join((b'MAIL FROM:<', self._encode(address), b'>'))""",
+   """b''.join((b'MAIL FROM <', self._encode(address), b'>'))""", 1))
+M('c06-twin-mail-from-with-blank', 'C06', 'silent',
+  (CL, """b''.join((b'MAIL FROM:<', self._encode(address), b'>'))""",
+   """b''.join((b'MAIL FROM: <', self._encode(address), b'>'))""", 1))
+M('c06-server-to-pattern-needs-blank', 'C06', 'fire:X1',
+  (SV, r"""to_pattern = re.compile(br'^[tT][oO]:\s*<')""",
+   r"""to_pattern = re.compile(br'^[tT][oO]:\s+<')""", 1))
+M('c06-rcpt-closed-with-paren', 'C06', 'fire:X1',
+  (CL, """b''.join((b'RCPT TO:<', self._encode(address), b'>'))""",
+   """b''.join((b'RCPT TO:<', self._encode(address), b')'))""", 1))
+M('c06-size-keyword-with-underscore', 'C06', 'fire:X2',
+  (CL, """command += b' SIZE='+self._encode(str(data_size))""",
+   """command += b' MSG_SIZE='+self._encode(str(data_size))""", 1))
+M('c06-size-sent-unconditionally', 'C06', 'fire:X2',
+  (CL, """if data_size is not None and 'SIZE' in self.extensions:""",
+   """if data_size is not None:""", 1))
+M('c06-xtext-lets-equals-through', 'C06', 'fire:X2',
+  (CL, r"""xtext_pattern = re.compile(br'[^\x21-\x2A\x2C-\x3C\x3E-\x7E]')""",
+   r"""xtext_pattern = re.compile(br'[^\x21-\x2A\x2C-\x7E]')""", 1))
+M('c06-utf8-always', 'C06', 'fire:X2',
+  (CL, """        if 'SMTPUTF8' in self.extensions:
+            return thing.encode('utf-8')
+        else:
+            return thing.encode('ascii')""",
+   """        return thing.encode('utf-8')""", 1))
+M('c06-ehlo-param-joined-with-equals', 'C06', 'fire:X3',
+  (EXF, """lines.append(' '.join((k, value_str)))""",
+   """lines.append('='.join((k, value_str)))""", 1))
+M('c06-ehlo-lines-joined-with-semicolon', 'C06', 'fire:X3',
+  (EXF, """return '\\r\\n'.join(lines)""",
+   """return '; '.join(lines)""", 1))
+M('c06-relay-sender-header-renamed', 'C06', 'fire:X4',
+  (HR, """    sender_header = 'X-Envelope-Sender'""",
+   """    sender_header = 'X-Envelope-From'""", 1))
+M('c06-twin-relay-header-case', 'C06', 'silent',
+  (HR, """    sender_header = 'X-Envelope-Sender'""",
+   """    sender_header = 'X-ENVELOPE-SENDER'""", 1))
+M('c06-edge-urlsafe-b64', 'C06', 'fire:X4',
+  (WE, """        return b64decode(b64str.encode('ascii')).decode('utf-8')""",
+   """        from base64 import urlsafe_b64decode
+        return urlsafe_b64decode(b64str.encode('ascii')).decode('utf-8')""",
+   1))
+M('c06-edge-latin1', 'C06', 'fire:X4',
+  (WE, """        return b64decode(b64str.encode('ascii')).decode('utf-8')""",
+   """        return b64decode(b64str.encode('ascii')).decode('latin-1')""",
+   1))
+M('c06-splitter-cuts-at-slash', 'C06', 'fire:X4',
+  (WE, r"""    split_pattern = re.compile(r'\s*[,;]\s*')""",
+   r"""    split_pattern = re.compile(r'\s*[,;/]\s*')""", 1))
+M('c06-reply-header-renamed', 'C06', 'fire:X4',
+  (HR, """raw_reply = http_res.getheader('X-Smtp-Reply', '')""",
+   """raw_reply = http_res.getheader('X-Reply', '')""", 1))
+M('c06-relay-reads-msg-param', 'C06', 'fire:X4',
+  (HR, """if match.group(1).lower() == 'message':""",
+   """if match.group(1).lower() == 'msg':""", 1))
+M('c06-recipients-sorted-on-the-way-out', 'C06', 'fire:X5',
+  ('slimta/relay/smtp/client.py',
+   """rcpttos = [self._rcptto(rcpt) for rcpt in envelope.recipients]""",
+   """rcpttos = [self._rcptto(rcpt)
+                   for rcpt in sorted(envelope.recipients)]""", 1))
+M('c06-edge-dedups-recipients', 'C06', 'fire:X5',
+  (WE, """        return [self._b64decode(rcpt_b64) for rcpt_b64 in rcpts_split]""",
+   """        return list(set(self._b64decode(rcpt_b64)
+                        for rcpt_b64 in rcpts_split))""", 1))
